@@ -9,6 +9,18 @@ CHECKS = {
              text="Every text of the enumerated sub-spaces (all strings over a 32-character alphabet up to length 3/4, all sequences over a 70-token vocabulary up to length 3/4) and 4e4-7e5 fuzzed texts were pushed through the real front end under a panic monitor and a progress budget; held on everything observed. Exploration, not proof: texts outside the enumerated spaces are only sampled.",
              note="Trusted: the probe's catch_unwind/panic hook, the worker exit status, the token-budget hook (guarded) and the real binary's exit status for confirmation. Non-termination is restated as bounded progress (20 s for texts <= 4000 chars).",
              design="6/C01"),
+ "C03": dict(level="exploration", technique="differential monitor: every expression tree rendered minimally from the documented table vs fully parenthesised, run through the real parser/compiler/VM; parsed trees, results and a direct Python evaluation compared",
+             text="All ordered pairs (quick) / triples (thorough) of the 18 binary operators in every nesting shape, prefix and postfix operators over and under every binary operator, assignment chains, plus random trees to depth 4 were parsed and evaluated by the real implementation in both renderings; held on everything observed. The operator-pair space is enumerated completely, deeper shapes are sampled.",
+             note="Trusted: the transcription of docs/language/expression-precedence.md into the renderer, the operator model of C09 for the direct evaluation.",
+             design="6/C03"),
+ "C06": dict(level="exploration", technique="table oracle over observed values: 25 representative values in every truthiness position (!, if, while, filter pattern, && and || against all right operands with an evaluation-count probe), enumerated completely",
+             text="The finite representative space (25 values x 5 positions x 25 right operands, plus the filter-pattern position through the real binary in both build profiles) is enumerated completely on every run; held on everything observed.",
+             note="Trusted: the truthiness table transcribed from the property statement; representatives stand for their kinds.",
+             design="6/C06"),
+ "C09": dict(level="exploration", technique="reference-model monitor: one operator application per VM execution, result/runtime error/panic compared with a Python model of the operator semantics over boundary-value tables and random operands",
+             text="Every operator x ordered pair of ~75 boundary values over 10 kinds, every unary operator, and 2e4-3e5 random operand pairs were executed by the real compiler+VM and compared with the model; held on everything observed. Corners the statement leaves open are counted, not judged.",
+             note="Trusted: opmodel.py (i64/u8 wrap-around, IEEE via Python floats, lexicographic string/char order). Byte vs integer ordering/equality, bitwise on bytes, integer*string and float division by zero are treated as unspecified.",
+             design="6/C09"),
 }
 
 PENDING_REASON = "check not built yet in this session (design in DESIGN.md section 6); not claimed until its monitor runs silently on the unchanged tree"
